@@ -256,6 +256,19 @@ func genG09(repo string, w *Out) error {
 		return err
 	}
 	w.DefBool("settings_delta_touches_conn", strings.Contains(ib, "connectionWindowSize"))
+	// ---- updateTableSize: SETTINGS_HEADER_TABLE_SIZE of the receiver limits the relay's ENCODER; does it
+	// also resize the relay's decoder (whose table is governed by the remote encoder's in-band updates)?
+	tb, _, err := g09Body(rf, "relay.updateTableSize")
+	if err != nil {
+		return err
+	}
+	if err := g09Need("updateTableSize", tb, "r.encoder.SetMaxDynamicTableSize(v)"); err != nil {
+		return err
+	}
+	w.DefBool("table_size_resizes_decoder", strings.Contains(tb, "r.decoder.SetMaxDynamicTableSize(v)"))
+	if strings.Contains(tb, "decoder") && !strings.Contains(tb, "r.decoder.SetMaxDynamicTableSize(v)") {
+		return fmt.Errorf("updateTableSize: touches the decoder in a way the model does not know: %q", tb)
+	}
 	mb, _, err := g09Body(rf, "relay.updateMaxFrameSize")
 	if err != nil {
 		return err
